@@ -19,6 +19,7 @@ statement that does not mention `.close` is a non-closing step), so that deletin
 into a no-op changes the generated term instead of making it untranslatable.
 """
 import ast
+import copy
 import os
 import re
 import sys
@@ -47,6 +48,93 @@ def strip_doc(body):
     if body and isinstance(body[0], ast.Expr) and isinstance(body[0].value, ast.Constant) and isinstance(body[0].value.value, str):
         body = body[1:]
     return body
+
+
+def _require(cond, what):
+    if not cond:
+        raise Untranslatable(what)
+
+
+def _subst(node, env):
+    """copy of node in which every loaded name bound in env is replaced by its (pure) expression"""
+    class T(ast.NodeTransformer):
+        def visit_Name(self, n):
+            if isinstance(n.ctx, ast.Load) and n.id in env:
+                return copy.deepcopy(env[n.id])
+            return n
+    return T().visit(copy.deepcopy(node))
+
+
+def _is_assign_to(s, target):
+    return isinstance(s, ast.Assign) and [ast.unparse(t) for t in s.targets] == [target]
+
+
+def _chain_assign(node, target):
+    """`if t1: ..; target = e1 elif t2: ..; target = e2 else: ..; target = e3` -> [(t1, pre1, e1), (t2, pre2, e2), (None, pre3, e3)]"""
+    out = []
+    while True:
+        _require(_is_assign_to(node.body[-1], target), f"a branch of the source dispatch does not end with `{target} = ..`")
+        out.append((node.test, node.body[:-1], node.body[-1].value))
+        if len(node.orelse) == 1 and isinstance(node.orelse[0], ast.If):
+            node = node.orelse[0]
+            continue
+        _require(node.orelse and _is_assign_to(node.orelse[-1], target), f"the final else of the source dispatch does not end with `{target} = ..`")
+        out.append((None, node.orelse[:-1], node.orelse[-1].value))
+        return out
+
+
+def _chain_return(stmts):
+    """`if t1: ..; return e1` [`elif ..` | fall through] .. `..; return e3` -> the same decision list"""
+    out = []
+    stmts = strip_doc(stmts)
+    while True:
+        _require(stmts, "helper falls off its end")
+        s = stmts[0]
+        if isinstance(s, ast.If) and s.body and isinstance(s.body[-1], ast.Return) and s.body[-1].value is not None:
+            out.append((s.test, s.body[:-1], s.body[-1].value))
+            if s.orelse:
+                _require(len(stmts) == 1, "statements after an if/else of returns")
+                stmts = s.orelse
+            else:
+                stmts = stmts[1:]
+            continue
+        last = stmts[-1]
+        _require(isinstance(last, ast.Return) and last.value is not None, "helper does not end with `return ..`")
+        out.append((None, stmts[:-1], last.value))
+        return out
+
+
+def dispatch(mod, body, target):
+    """-> (binder, decision list [(test | None, statements before, value)]): how the statements `body` bind `target`, either by
+    an if/elif/else chain of assignments or by `target = helper(names / constants)` with a module level helper made of returns
+    (looked through: its parameters are replaced by the arguments)"""
+    binders = [s for s in body if any(isinstance(n, ast.Name) and n.id == target and isinstance(n.ctx, ast.Store) for n in ast.walk(s))]
+    _require(len(binders) == 1, f"`{target}` is bound by {len(binders)} statements before the try")
+    s = binders[0]
+    if isinstance(s, ast.If):
+        return s, _chain_assign(s, target)
+    _require(_is_assign_to(s, target) and isinstance(s.value, ast.Call) and isinstance(s.value.func, ast.Name),
+             f"statement touching the stream before the try: {ast.unparse(s)[:80]}")
+    call = s.value
+    defs = [n for n in mod.body if isinstance(n, ast.FunctionDef) and n.name == call.func.id]
+    _require(len(defs) == 1 and not defs[0].decorator_list, f"statement touching the stream before the try: {ast.unparse(s)[:80]}")
+    h = defs[0]
+    a = h.args
+    _require(not (a.vararg or a.kwarg or a.posonlyargs or a.kwonlyargs or a.defaults), f"helper {h.name}: signature not understood")
+    params = [p.arg for p in a.args]
+    _require(not any(isinstance(x, ast.Starred) for x in call.args) and all(k.arg for k in call.keywords), f"helper {h.name}: star arguments")
+    _require(len(call.args) <= len(params), f"helper {h.name}: too many arguments")
+    env = dict(zip(params, call.args))
+    for k in call.keywords:
+        _require(k.arg in params and k.arg not in env, f"helper {h.name}: argument {k.arg}")
+        env[k.arg] = k.value
+    _require(sorted(env) == sorted(params), f"helper {h.name}: arguments do not match the parameters")
+    _require(all(isinstance(v, (ast.Name, ast.Constant)) for v in env.values()), f"helper {h.name}: an argument is not a name or a constant")
+    for n in [m for b in h.body for m in ast.walk(b)]:
+        _require(not isinstance(n, (ast.Global, ast.Nonlocal, ast.Yield, ast.YieldFrom, ast.Await, ast.FunctionDef, ast.Lambda)),
+                 f"helper {h.name}: {type(n).__name__}")
+        _require(not (isinstance(n, ast.Name) and isinstance(n.ctx, (ast.Store, ast.Del)) and n.id in params), f"helper {h.name} rebinds a parameter")
+    return s, [(None if t is None else _subst(t, env), [_subst(p, env) for p in pre], _subst(v, env)) for t, pre, v in _chain_return(h.body)]
 
 
 class CloseTr:
@@ -176,23 +264,25 @@ def analyse_branch(repo, body, cls_name, rel):
     if len(trys) != 1 or body[-1] is not trys[0]:
         raise Untranslatable("branch is not `...; try: return X(stream, ...) except ...`")
     tr = trys[0]
-    src_if = None
+    binder, disp = dispatch(parse(repo, "laspy/lib.py"), body[:-1], "stream")
     for s in body[:-1]:
         txt = ast.unparse(s)
-        if isinstance(s, ast.If) and txt.startswith("if isinstance(source, (str, Path))"):
-            src_if = s
-        elif MENTIONS_CLOSE.search(txt) or "stream" in txt.replace("data stream", ""):
+        if s is not binder and (MENTIONS_CLOSE.search(txt) or "stream" in txt.replace("data stream", "")):
             raise Untranslatable(f"statement touching the stream before the try: {txt[:80]}")
-    if src_if is None:
+    for s in body[:-1]:
+        for n in ast.walk(s):
+            if isinstance(n, ast.Name) and n.id in ("closefd", "source") and isinstance(n.ctx, (ast.Store, ast.Del)):
+                raise Untranslatable(f"`{n.id}` is rebound before the try")
+    if disp[0][0] is None or ast.unparse(disp[0][0]) != "isinstance(source, (str, Path))":
         raise Untranslatable("source dispatch (`if isinstance(source, (str, Path))`) not found")
-    # walk to the final else: the caller's own object
-    node = src_if
-    while len(node.orelse) == 1 and isinstance(node.orelse[0], ast.If):
-        node = node.orelse[0]
-    last = list(node.orelse)
-    if not last or ast.unparse(last[-1]) != "stream = source":
+    for t, pre, v in disp:
+        if any(MENTIONS_CLOSE.search(ast.unparse(p)) for p in pre):
+            raise Untranslatable("the source dispatch closes something")
+    # the final else: the caller's own object
+    t, pre, v = disp[-1]
+    if t is not None or ast.unparse(v) != "source":
         raise Untranslatable("the caller's stream is not passed on as it is (`stream = source`)")
-    for s in last[:-1]:
+    for s in pre:
         if ast.unparse(s) == "assert source.seekable()":
             res["pre_assert"] = "true"
         else:
